@@ -157,6 +157,10 @@ def _record(n, modname, res, types, refs, RefExpr, Expression):
 
 
 _HEAD = re.compile(r"^([\w.]+)")
+_BUILTIN = {
+    n: "builtins." + n
+    for n in ("list", "dict", "set", "tuple", "int", "str", "float", "bool", "frozenset", "bytes", "object", "bytearray")
+}
 
 
 def split_union(t: str) -> list[str]:
@@ -208,7 +212,8 @@ def heads(t: str | None) -> list[str]:
             continue
         m = _HEAD.match(p)
         if m:
-            out.append(m.group(1))
+            h = m.group(1)
+            out.append(_BUILTIN.get(h, h))
     return out
 
 
